@@ -99,7 +99,7 @@ def run(tier):
                 while np.max(np.diff(np.append(cuts, cuts[0] + 360))) >= 180:
                     cuts = np.sort(np.array(rng.sample(range(0, 3600), nd))) / 10.0
                 k = rng.randrange(nd)
-                dirs = np.roll(cuts, -k) + rng.choice([0.0, -360.0, 360.0])
+                dirs = np.roll(cuts, -k) + rng.choice([0.0, 0.0, -360.0, 360.0])     # (the rolled array wraps inside)
             f = np.cumsum(np.array([rng.uniform(0.02, 0.08) for _ in range(nf)]))
             B = rng.choice([1, 3])
             vd = np.array([[[rng.uniform(0, 1) * math.exp(-((((d - 100 * (b + 1) - 30 * i) + 180) % 360 - 180) / 40.0) ** 2) for d in dirs]
@@ -152,8 +152,11 @@ def run(tier):
                         break
                 k = rng.randrange(nd)
                 off = rng.choice([0, -360, 360, 720])
-                d2 = dirs[k:] + [x + 360 for x in dirs[:k]]
-                d2 = [x + off for x in d2]
+                if rng.random() < 0.4:
+                    d2 = dirs[k:] + dirs[:k]                     # reduced into [0, 360): the branch cut is inside the array
+                else:
+                    d2 = dirs[k:] + [x + 360 for x in dirs[:k]]
+                    d2 = [x + off for x in d2]
                 Dv = [rng.randint(0, 9) for _ in d2]
                 nan = [1 if rng.random() < 0.15 else 0 for _ in d2]
                 vd = np.array([[[np.nan if m else float(v) for v, m in zip(Dv, nan)]]])
